@@ -104,6 +104,7 @@ type sched struct {
 	objSeq      int
 	chans       map[uintptr]*chanState
 	locals      map[any]any
+	inPred      bool // evaluating an enabling predicate / invariant: shim operations are plain accesses
 }
 
 type poisonT struct{}
@@ -276,7 +277,13 @@ func (s *sched) isEnabled(t *thread) bool {
 	if t.done {
 		return false
 	}
-	return t.enabled == nil || t.enabled()
+	if t.enabled == nil {
+		return true
+	}
+	s.inPred = true
+	ok := t.enabled()
+	s.inPred = false
+	return ok
 }
 
 // nextDeadline returns the earliest pending deadline > clock among sleepers and timers.
@@ -360,7 +367,10 @@ func (s *sched) dispatch(from *thread, op string) {
 		}
 	}
 	if s.invariant != nil {
-		if msg := s.invariant(); msg != "" {
+		s.inPred = true
+		msg := s.invariant()
+		s.inPred = false
+		if msg != "" {
 			s.x.Failures = append(s.x.Failures, Failure{"invariant", msg})
 			s.finishFrom(VFail)
 			if from != nil {
@@ -399,7 +409,12 @@ func (s *sched) dispatch(from *thread, op string) {
 			}
 		}
 		s.preferred = nil
-		_, hasClock := s.nextDeadline()
+		nd, hasClock := s.nextDeadline()
+		if hasClock && nd > s.horizon && (len(cands) > 0 || tail != nil) {
+			// starving runnable threads until a timer beyond the horizon is not a fair schedule:
+			// the jump past the horizon is only taken at quiescence
+			hasClock = false
+		}
 		// slots: threads in canonical order, then CLOCK; a yielding caller goes after CLOCK so that
 		// polling loops let virtual time pass when nobody else can run.
 		slots := cands
@@ -505,7 +520,7 @@ func me() (*sched, *thread) {
 // Point is a scheduling decision before a visible operation.
 func Point(op string) {
 	s, t := me()
-	if s == nil {
+	if s == nil || s.inPred {
 		return
 	}
 	if s.poisoned {
@@ -521,6 +536,12 @@ func Block(op string, pred func() bool) {
 	if s == nil {
 		if !pred() {
 			panic("vsched: operation would block outside a controlled execution: " + op)
+		}
+		return
+	}
+	if s.inPred {
+		if !pred() {
+			panic("vsched: blocking operation inside a predicate / invariant: " + op)
 		}
 		return
 	}
